@@ -10,7 +10,7 @@ COQ_TARGETS = ["Props/C03.vo", "Props/C03_fp.vo", "Props/C03_support.vo", "Props
 PROPS_FILES = ["C03", "C03_fp", "C03_support", "C03_refuted", "C03_discrete"]
 THEOREMS = ["C03_frechet_refuted", "C03_frechet_except_known", "C03_gumbel_refuted", "C03_gumbel_except_known", "C03_beta_in_unit", "C03_gamma_nonneg", "C03_fingerprints",
             "C03_geometric_support", "C03_zeta_support", "C03_zipf_support", "C03_poisson_support", "C03_binv_support", "C03_std_geometric_support",
-            "C03_btpe_support", "C03_binomial_support", "C03_h2pe_branch_support", "C03_hypergeometric_support"]
+            "C03_lognormal_pos", "C03_fisher_f_nonneg", "C03_inverse_gaussian_pos", "C03_btpe_support", "C03_binomial_support", "C03_h2pe_branch_support", "C03_hypergeometric_support"]
 TRUSTED_BASE = [
     "Coq 8.16.1 kernel; integer-exact support theorems (alias/tree indices: C08/C10) and ideal-real support theorems on the "
     "sampler models (Proofs/Support.v) — the models are tied to the code by C01's pathwise correspondence",
